@@ -37,6 +37,10 @@ type Modules struct {
 	// converted nodes. To access the map, use the get/set/ClearEntryCache()
 	// thread-safe functions.
 	entryCache map[Node]*Entry
+	// expanding is the set of groupings whose Entry is being built on
+	// behalf of a uses statement; it is protected by entryCacheMu and used
+	// to detect a grouping that uses itself.
+	expanding map[*Grouping]bool
 	// mergedSubmodule is used to prevent re-parsing a submodule that has already
 	// been merged into a particular entity when circular dependencies are being
 	// ignored. The keys of the map are a string that is formed by concatenating
@@ -465,6 +469,28 @@ func (ms *Modules) setEntryCache(n Node, e *Entry) {
 	ms.entryCacheMu.Lock()
 	defer ms.entryCacheMu.Unlock()
 	ms.entryCache[n] = e
+}
+
+// startExpanding marks g as being expanded by a uses statement. It returns
+// false if g is already being expanded, i.e., g uses itself.
+func (ms *Modules) startExpanding(g *Grouping) bool {
+	ms.entryCacheMu.Lock()
+	defer ms.entryCacheMu.Unlock()
+	if ms.expanding[g] {
+		return false
+	}
+	if ms.expanding == nil {
+		ms.expanding = map[*Grouping]bool{}
+	}
+	ms.expanding[g] = true
+	return true
+}
+
+// doneExpanding undoes startExpanding.
+func (ms *Modules) doneExpanding(g *Grouping) {
+	ms.entryCacheMu.Lock()
+	defer ms.entryCacheMu.Unlock()
+	delete(ms.expanding, g)
 }
 
 // ClearEntryCache clears the entryCache containing previously converted nodes
